@@ -300,6 +300,8 @@ def run(ck):
 
     memory_rules(ck, c, rc, rtab)
     control_rules(ck, c, rc, rtab)
+    segment_rules(ck, c, rc, rtab)
+    pstack_rules(ck, c, hf, hsw, onames)
 
 
 # memory instructions (WebAssembly 1.0, 4.4.4): N bits are read at ea = base (u32) + offset (u32) as a 33-bit sum, trap if
@@ -581,3 +583,251 @@ def control_rules(ck, c, rc, rtab):
         ck.ob("CMP", "interpreter:CallIndirect", "type-test-enforced", ok,
               "the dynamic type test traps exactly when the expected type differs (imported: one equality; local: same index or structurally equal): %s" % res, rc.loc(tb))
     ck.floor("TAB", "control/accounting arm obligations", nn_, 9)
+
+
+# ---------------------------------------------------------------------------------------------------------------------
+# emission segments: wherever the compiler emits an internal opcode, the immediates that follow it on the straight path are
+# the ones the interpreter's arm for that opcode reads first (kinds: loc = register operand, u16/u32/i32 = immediates)
+EMIT = {"push_u16": "u16", "push_u32": "u32", "push_i32": "i32", "push_loc": "loc", "push_consume": "loc", "push_provide": "loc"}
+READ = {"get_u16": "u16", "get_u32": "u32", "get_i32": "i32", "get_local": "loc", "get_local_mut": "loc"}
+
+
+def _segment(c, f, start_bb, depth=0):
+    """tokens emitted after the opcode push at the end of block start_bb, following the straight path; a branch whose arms
+    emit the same tokens and meet again is passed through; stops at loops, helpers with their own structure, the next opcode"""
+    rr = f.reject_region()
+
+    def live_succ(t):
+        return [b for b in ([tb for _, tb in t["t"]] + [t["o"]]) if b not in rr and f.term(b)["k"] != "unreachable"]
+
+    def walk(cur, seen, budget):
+        """returns (tokens, stop_block, finished) following from cur until a stop condition"""
+        toks = []
+        while cur is not None and budget > 0:
+            budget -= 1
+            if cur in seen:
+                return toks, cur, True        # loop
+            seen = seen | {cur}
+            t = f.term(cur)
+            k = t["k"]
+            if k == "call":
+                p = t["f"].get("path", "")
+                nm = p.split("::")[-1]
+                if re.search(r"artifact::Instructions::push$", p):
+                    return toks, cur, True
+                if re.search(r"artifact::(Instructions|BackPatch)::(push_u16|push_u32|push_i32|push_loc|push_consume|push_provide)$", p):
+                    toks.append(EMIT[nm])
+                elif re.search(r"artifact::BackPatch::(push_br_jump|push_br_if_jump|push_br_table_jump|insert_jump_location|push_binary|push_unary|push_ternary|push_mem_load|push_mem_store)$", p):
+                    toks.append("<" + nm + ">")
+                    return toks, cur, True
+                cur = t.get("target")
+            elif k == "goto":
+                cur = t["target"]
+            elif k == "switch":
+                nxt = sorted(set(live_succ(t)))
+                if len(nxt) == 1:
+                    cur = nxt[0]
+                    continue
+                if len(nxt) != 2:
+                    return toks, cur, True
+                # diamond: both arms must reach a common block having emitted the same tokens
+                reach = [f.reach_from([x]) for x in nxt]
+                common = [b for b in rpo(f) if b in reach[0] and b in reach[1] and b not in rr]
+                if not common:
+                    return toks, cur, True
+                join = common[0]
+                arms = []
+                for x in nxt:
+                    a_toks, cur2, fin = [], x, False
+                    steps = 0
+                    ok = True
+                    while cur2 != join and steps < 60:
+                        steps += 1
+                        tt = f.term(cur2)
+                        if tt["k"] == "call":
+                            pp = tt["f"].get("path", "")
+                            if re.search(r"artifact::Instructions::push$|artifact::BackPatch::(push_br_jump|push_br_if_jump|push_br_table_jump|insert_jump_location|push_binary|push_unary|push_ternary|push_mem_load|push_mem_store)$", pp):
+                                ok = False
+                                break
+                            if re.search(r"artifact::(Instructions|BackPatch)::(push_u16|push_u32|push_i32|push_loc|push_consume|push_provide)$", pp):
+                                a_toks.append(EMIT[pp.split("::")[-1]])
+                            cur2 = tt.get("target")
+                        elif tt["k"] == "goto":
+                            cur2 = tt["target"]
+                        elif tt["k"] == "switch":
+                            ls = sorted(set(live_succ(tt)))
+                            if len(ls) != 1:
+                                ok = False
+                                break
+                            cur2 = ls[0]
+                        elif tt["k"] in ("drop", "assert"):
+                            cur2 = tt.get("target")
+                        else:
+                            ok = False
+                            break
+                        if cur2 is None:
+                            ok = False
+                            break
+                    arms.append(a_toks if ok and cur2 == join else None)
+                if arms[0] is None or arms[0] != arms[1]:
+                    return toks, cur, True
+                toks += arms[0]
+                cur = join
+            elif k in ("drop", "assert"):
+                cur = t.get("target")
+            else:
+                return toks, cur, True
+        return toks, cur, True
+
+    toks, _, _ = walk(f.term(start_bb).get("target"), frozenset(), 400)
+    return toks
+
+
+def segment_rules(ck, c, rc, rtab):
+    n = 0
+    for p in sorted(c.paths()):
+        if not re.search(r"artifact::BackPatch::|BackPatch as concordium_wasm::validate::Handler<.*>>::handle_opcode$", p):
+            continue
+        for b in c.get_all(p):
+            f = Fn(b)
+            for (bi, t) in f.calls(r"artifact::Instructions::push$"):
+                op = opname(f, t["args"][1])
+                if op is None or op not in rtab:
+                    continue
+                seg = _segment(c, f, bi)
+                reads = [READ.get({"src": "get_local", "dst": "get_local_mut"}.get(x, x), x) for x in rtab[op][0]]
+                reads = [{"src": "loc", "dst": "loc"}.get(x, x) for x in rtab[op][0]]
+                # a register operand is encoded as an i32 (get_local reads one): same width, same kind
+                plain = ["loc" if x == "i32" else x for x in seg if not x.startswith("<")]
+                reads = ["loc" if x == "i32" else x for x in reads]
+                ok = plain == reads[:len(plain)]
+                n += 1
+                ck.ob("SYM", p, "segment:%s@%d" % (op, len([x for x in f.calls(r"artifact::Instructions::push$") if x[0] < bi])), ok,
+                      "after emitting %s the compiler writes %s; the interpreter's arm reads %s" % (op, seg, reads), f.loc(bi))
+    ck.floor("SYM", "opcode emission sites with agreeing operand prefix", n, 20)
+
+
+# ---------------------------------------------------------------------------------------------------------------------
+# providers stack: the compiler's register-provider stack mirrors the operand stack of the validator, so every arm must
+# change its height exactly as the instruction's type prescribes (or cut it back to the operand stack's height after a
+# stack-polymorphic instruction)
+PSTACK = [(r"artifact::ProvidersStack::consume$", -1), (r"artifact::BackPatch::push_consume$", -1),
+          (r"artifact::ProvidersStack::provide$", 1), (r"artifact::ProvidersStack::provide_existing$", 1), (r"artifact::BackPatch::push_provide$", 1),
+          (r"artifact::ProvidersStack::push_constant$", 1),
+          (r"artifact::BackPatch::push_binary$", -1), (r"artifact::BackPatch::push_unary$", 0), (r"artifact::BackPatch::push_ternary$", -2),
+          (r"artifact::BackPatch::push_mem_load$", 0), (r"artifact::BackPatch::push_mem_store$", -2)]
+HELPER_EFFECT = {"push_binary": (2, 1), "push_unary": (1, 1), "push_ternary": (3, 1), "push_mem_load": (1, 1), "push_mem_store": (2, 0),
+                 "push_consume": (1, 0), "push_provide": (0, 1)}
+
+
+def _arm_paths(f, region, entry):
+    """acyclic paths through an arm: [(net effect, resynced, [loop body effects])]"""
+    rr = f.reject_region()
+    out = []
+
+    def eff(b):
+        t = f.term(b)
+        if t["k"] != "call":
+            return 0, False
+        p = t["f"].get("path", "")
+        if re.search(r"artifact::ProvidersStack::truncate$", p):
+            return 0, True
+        for pat, e in PSTACK:
+            if re.search(pat, p):
+                return e, False
+        return 0, False
+
+    def dfs(b, net, res, pathpos, loops, depth):
+        if depth > 400 or len(out) > 4000:
+            return
+        if b not in region:
+            out.append((net, res, tuple(loops)))
+            return
+        if b in rr or f.term(b)["k"] == "unreachable":
+            return
+        if b in pathpos:
+            loops = loops + [net - pathpos[b]]
+            out.append(("loop", res, tuple(loops)))
+            return
+        e, r = eff(b)
+        pp = dict(pathpos)
+        pp[b] = net
+        t = f.term(b)
+        nxt = [t.get("target")] if t["k"] in ("call", "drop", "assert") else f.succ(b)     # no unwind edges
+        for s in sorted(set(x for x in nxt if x is not None)):
+            dfs(s, net + e, res or r, pp, loops, depth + 1)
+    dfs(entry, 0, False, {}, [], 0)
+    return out
+
+
+def pstack_rules(ck, c, hf, hsw, onames):
+    spec = json.load(open(os.path.join(os.path.dirname(SPEC), "wasm_typing.json")))["instructions"]
+    POLY = {"Br", "BrTable", "Return", "Unreachable"}
+    SKIP = {"End": "block exits reconcile the value with the block's result register (copies, reachability cases)",
+            "Else": "ends the then-branch through the branch helper",
+            "Block": "no operand", "Loop": "no operand", "TickEnergy": "no operand", "Nop": "no operand"}
+    helper_ok = True
+    # the helpers' own effect
+    for nm, (cn, pn) in sorted(HELPER_EFFECT.items()):
+        hp = [p for p in c.paths() if p.endswith("artifact::BackPatch::" + nm)]
+        if not ck.anchor(len(hp) == 1, "TAB", "BackPatch::" + nm, "helper exists"):
+            continue
+        g = Fn(c.get(hp[0]))
+        cons = len(g.calls(r"artifact::ProvidersStack::consume$|artifact::BackPatch::push_consume$"))
+        prov = len(g.calls(r"artifact::ProvidersStack::provide$|artifact::ProvidersStack::provide_existing$|artifact::BackPatch::push_provide$"))
+        ck.ob("TAB", hp[0], "helper-stack-effect", (cons, prov) == (cn, pn), "%s consumes %d and provides %d register providers (expected %d, %d)" % (nm, cons, prov, cn, pn), g.loc())
+    n = 0
+    done = {}
+    # the block where all arms meet again: everything an arm can reach before it belongs to the arm
+    rr_ = hf.reject_region()
+    entries = sorted(set(tb for _, tb in hsw[1]["t"]))
+    common = None
+    for tb in entries[:40]:
+        r = hf.reach_from([tb])
+        common = r if common is None else (common & r)
+    order = [b for b in rpo(hf) if common and b in common and b not in rr_]
+    join = order[0] if order else None
+    after = hf.reach_from([join]) if join is not None else set()
+    for v, tb in hsw[1]["t"]:
+        name = onames[int(v)]
+        sp = spec.get(name)
+        if sp is None:
+            continue
+        if name in SKIP:
+            continue
+        if tb not in done:
+            region = (hf.reach_from([tb]) | {tb}) - after
+            done[tb] = (_arm_paths(hf, region, tb), region)
+        paths, region = done[tb]
+        pops = sum(1 for e in sp["spec"] if e.startswith("pop") and not e.endswith("*"))
+        pushes = sum(1 for e in sp["spec"] if e.startswith("push") and not e.endswith("*"))
+        n += 1
+        if name in POLY:
+            ok = bool(paths) and all(res for (net, res, loops) in paths if net != "loop")
+            ck.ob("TAB", "compile:" + name, "providers-stack-resynced", ok,
+                  "after this stack-polymorphic instruction the providers stack is cut back to the operand stack's height on every path" if ok else
+                  "some path through the arm leaves the providers stack as it is: it no longer has the height of the operand stack", hf.loc(tb))
+            continue
+        if name in ("Call", "CallIndirect"):
+            loops = [l for (net, res, ls) in paths for l in ls]
+            fixed = 1 if name == "CallIndirect" else 0
+            nets = sorted(set(net for (net, res, ls) in paths if net != "loop"))
+            ok = bool(loops) and all(l == -1 for l in loops) and nets and all(x in (-fixed, -fixed + 1) for x in nets)
+            ck.ob("TAB", "compile:" + name, "providers-stack-effect", ok,
+                  "one provider is consumed per parameter%s and at most one is provided for the result (loop effects %s, other paths %s)" % (" plus the table index" if fixed else "", sorted(set(loops)), nets), hf.loc(tb))
+            continue
+        def want_of(nm2):
+            sp2 = spec[nm2]["spec"]
+            if nm2 == "BrIf":
+                return -1       # the condition; the carried value stays where it is
+            return sum(1 for e in sp2 if e.startswith("push") and not e.endswith("*")) - sum(1 for e in sp2 if e.startswith("pop") and not e.endswith("*"))
+        core = region - rr_ - {tb}
+        sharing = [onames[int(v2)] for v2, tb2 in hsw[1]["t"] if tb2 == tb or (((hf.reach_from([tb2]) | {tb2}) - after - rr_ - {tb2}) & core)]
+        sharing = sorted(set(sharing) | {name})
+        wants = sorted(set(want_of(x) for x in sharing if x in spec))
+        nets = sorted(set(net for (net, res, ls) in paths if net != "loop" and not res))
+        ok = nets == wants or (not nets and any(res for (_, res, _) in paths))
+        ck.ob("TAB", "compile:" + name, "providers-stack-effect", ok,
+              "every path changes the providers stack by %s, as the instruction type%s" % (wants, " does" if len(sharing) == 1 else "s of %s do" % sharing) if ok else
+              "paths through the arm change the providers stack by %s, the instruction type%s require%s %s" % (nets, "" if len(sharing) == 1 else "s of %s" % sharing, "s" if len(sharing) == 1 else "", wants), hf.loc(tb))
+    ck.floor("TAB", "arms whose providers-stack effect is compared with the instruction type", n, 95)
